@@ -186,6 +186,21 @@ fn normalize(c: &Case) -> Norm {
         rows.push(Vec::new());
         pad.push(false);
     }
+    if c.bom && fmt == ATA {
+        // ATASCII: the bytes EF BB BF are the inverse-video characters o ; ? - a single row that starts with them and
+        // holds no other inverse cell is a file that looks like UTF-8 text with a byte order mark
+        rows.truncate(1);
+        pad.truncate(1);
+        for cell in rows[0].iter_mut() {
+            *cell = Cell(cell.0, 7, 0);
+        }
+        while rows[0].len() < 3 {
+            rows[0].push(NEUTRAL);
+        }
+        for (i, b) in [b'o', b';', b'?'].iter().enumerate() {
+            rows[0][i] = Cell(*b, 0, 7);
+        }
+    }
     if c.bom && fmt != ATA {
         let r0 = &mut rows[0];
         while r0.len() < 3 {
@@ -831,7 +846,7 @@ fn rows(w: u8, hmax: usize) -> BoxedStrategy<Vec<Row>> {
 fn cases(fmt: usize, steer_bom: bool) -> BoxedStrategy<Case> {
     let w = width_of(fmt) as u8;
     // while the finding C15-cp437-content-starting-with-utf8-bom is open, its precondition is not generated (the witness keeps it)
-    let bom = if matches!(fmt, CTRLA | REN | ASC) && !steer_bom { proptest::bool::weighted(0.01).boxed() } else { Just(false).boxed() };
+    let bom = if (matches!(fmt, CTRLA | REN | ASC) && !steer_bom) || fmt == ATA { proptest::bool::weighted(0.01).boxed() } else { Just(false).boxed() };
     let alt = if fmt == REN { prop_oneof![3 => Just(0u8), 1 => 0u8..9].boxed() } else { Just(0u8).boxed() };
     (0u8..3, alt, bom, rows(w, max_height(fmt))).prop_map(move |(prep, alt, bom, rows)| Case { fmt: fmt as u8, prep, alt, bom, rows }).boxed()
 }
@@ -910,7 +925,7 @@ fn main() {
          0..=width with extra weight on width, width-1, width-2, 1, 0), last row never empty (a 'z' is stored when it would be); cells after the end of a row are either unset or explicit blanks on black; \
          characters 0x20..=0x7E, 0x80..=0xFE and the C0 codes 0x01..=0x1F that the format's reader prints as glyphs, minus the format's lead-ins (Avatar, PCBoard, Ctrl-A, Renegade: without BEL LF FF CR ESC and ^V ^Y ^L / '@' / ^A / '|'; ASCII: without BEL BS LF FF CR; \
          ATASCII: 0x01..=0x1A and 0x20..=0x7C, i.e. without ESC, the cursor codes 0x1C..0x1F and 0x7D..0x7F), illegal characters replaced by letters by construction; attributes foreground 0..=15 x background 0..=7 per run \
-         (ASCII: none; ATASCII: normal / inverse); screen preparation None / ClearScreen / Home uniformly; SaveOptions::new() with lossles_output=true; a 1% share of Ctrl-A / Renegade / ASCII buffers starts with the CP437 characters EF BB BF. \
+         (ASCII: none; ATASCII: normal / inverse); screen preparation None / ClearScreen / Home uniformly; SaveOptions::new() with lossles_output=true; a 1% share of Ctrl-A / Renegade / ASCII buffers starts with the CP437 characters EF BB BF (not generated while the BOM finding is open), and 1% of the ATASCII buffers are a single row starting with inverse 'o;?' (the same bytes) without other inverse cells. \
          Non-trivial: at least one full-width row or at least 3 attribute changes inside one row; distinct by hash of the case. Failure key = format | first violated clause (char, bg, fg, size, save_err, load_err) of the reduced case | \
          input features the reduced case needs: the features prep_cls/prep_home, utf8_bom_prefix, multirow (no single row and no two joined neighbouring rows fail), explicit_trailing_blanks, full_width_row, empty_row, c0_glyph, high_char, blank_cell, code_like_char (hex digits, X), \
          high_fg, bg_color (ATASCII: inverse), fg_color, long_run (> 3 equal cells), equal_chars are removed greedily in this fixed order; a removal is kept while the case still fails, a feature is named when its removal makes the case pass.",
